@@ -98,4 +98,25 @@ theorem split_unique {α : Type} {pre post pre' post' : List α} {r : α}
       obtain ⟨e1, e2⟩ := ih hnd.2 h2
       exact ⟨by rw [h1, e1], e2⟩
 
+/-- `m` is an interleaving of `a` and `b` (each in its own order): how the frames of two calls
+    running at the same time can land in the stream -/
+inductive Interleave {α : Type} : List α → List α → List α → Prop where
+  | nil : Interleave [] [] []
+  | left {a b m : List α} (x : α) : Interleave a b m → Interleave (x :: a) b (x :: m)
+  | right {a b m : List α} (y : α) : Interleave a b m → Interleave a (y :: b) (y :: m)
+
+theorem interleave_filter {α : Type} (p : α → Bool) {a b m : List α} (h : Interleave a b m)
+    (ha : ∀ x ∈ a, p x = true) (hb : ∀ y ∈ b, p y = false) : m.filter p = a := by
+  induction h with
+  | nil => rfl
+  | left x _ ih =>
+    have hx := ha x (by simp)
+    simp only [List.filter_cons, hx, if_true]
+    rw [ih (fun z hz => ha z (by simp [hz])) hb]
+  | right y _ ih =>
+    have hy := hb y (by simp)
+    simp only [List.filter_cons, hy]
+    exact ih ha (fun z hz => hb z (by simp [hz]))
+
+
 end Xs
